@@ -4,6 +4,7 @@ registered statistics functions.
 -/
 import DeapModel.Lemmas.C18Hist
 import DeapModel.Lemmas.C18Deep
+import DeapModel.Lemmas.C18Shape
 import Mathlib.Data.List.Induction
 
 set_option linter.unusedSimpArgs false
@@ -77,6 +78,151 @@ theorem headerCount_snoc (ops : List Op) (o : Op) :
       | false => rfl
       | true => exact absurd ((isStream_iff o).1 h) hs
     simp [headerCount, streams_snoc_other ops o hs, this]
+
+/-! ### histories over records with dictionaries inside dictionaries -/
+
+/-- premise for one operation when every record carries the chapter tree `sh` (at every level) -/
+def OpOkDeep (sh : Shape) (es : List Entry) : Op → Prop
+  | .record e => Fits [] sh e
+  | .delSlice idx => idx.Nodup ∧ ∀ i ∈ idx, i < es.length
+  | _ => True
+
+/-- `Valid` for nested dictionaries: every record of the history carries the chapter tree `sh` -/
+def ValidDeep (sh : Shape) : List Entry → List Op → Prop
+  | _, [] => True
+  | es, o :: os => OpOkDeep sh es o ∧ ValidDeep sh (specStep es o) os
+
+structure RepDeep (sh : Shape) (lb : LB) (es : List Entry) : Prop where
+  shaped : ShapedAligned sh lb
+  rows : lb.rows = es.map Entry.scalars
+
+theorem step_repDeep {sh : Shape} {lb : LB} {es : List Entry} (h : RepDeep sh lb es) (o : Op)
+    (ho : OpOkDeep sh es o) : RepDeep sh (step lb o).1 (specStep es o) := by
+  have hlen : lb.rows.length = es.length := by rw [h.rows, List.length_map]
+  have hd : DeepAligned lb := shaped_deep sh lb h.shaped
+  cases o with
+  | record e =>
+    exact ⟨record_shaped sh e [] lb ho h.shaped, by
+      simp [step, specStep, Logbook.record, recordAux_rows, h.rows]⟩
+  | select path names => exact h
+  | str => exact h
+  | stream =>
+    obtain ⟨h1, h2, h3, _⟩ := stream_state lb
+    exact ⟨h.shaped.congr (congrArg List.length h1) h2 (by
+      show (Logbook.stream lb).2.buffindex ≤ (Logbook.stream lb).2.rows.length
+      rw [h3, h1]; exact Nat.le_refl _), by simpa [step, specStep, h1] using h.rows⟩
+  | pop i =>
+    simp only [step, specStep]
+    cases hp : pos? es.length i with
+    | none => rw [pop_out_deep i lb hd (by rw [hlen]; exact hp)]; exact h
+    | some p =>
+      rw [pop_deep i p lb hd (by rw [hlen]; exact hp)]
+      exact ⟨erase_shaped sh lb p h.shaped, by simp [eraseDeep_rows, h.rows, eraseIdx_map]⟩
+  | delIndex i =>
+    simp only [step, specStep]
+    cases hp : pos? es.length i with
+    | none => rw [delIndex_out lb i hd (by rw [hlen]; exact hp)]; exact h
+    | some p =>
+      rw [delIndex_deep lb i p hd (by rw [hlen]; exact hp)]
+      exact ⟨erase_shaped sh lb p h.shaped, by simp [eraseDeep_rows, h.rows, eraseIdx_map]⟩
+  | delSlice idx =>
+    obtain ⟨h1, _⟩ := delEach_deep (sortDesc idx) (sortDesc_strict idx ho.1) lb hd
+      (fun i hi => by rw [hlen]; exact ho.2 i ((mem_sortDesc i idx).1 hi))
+    have he : Logbook.delSlice idx lb = (eraseAllDeep (sortDesc idx) lb, false) := h1
+    simp only [step, specStep, he]
+    exact ⟨eraseAll_shaped sh _ lb h.shaped, by
+      rw [eraseAllDeep_rows, eraseAll_sortDesc idx ho.1, h.rows, removeIdx_map]⟩
+  | pickle => simp only [step, specStep, pickle_eq]; exact h
+  | setHeader hd' =>
+    obtain ⟨h1, h2, h3, _⟩ := setHeader_state hd' lb
+    exact ⟨h.shaped.congr (congrArg List.length h1) h2 (by
+      show (Logbook.setHeader hd' lb).buffindex ≤ (Logbook.setHeader hd' lb).rows.length
+      rw [h3, h1]; exact ((deepAligned_iff lb).1 hd).1), by simpa [step, specStep, h1] using h.rows⟩
+  | setLogHeader f =>
+    obtain ⟨h1, h2, h3⟩ := setLogHeader_state f lb
+    exact ⟨h.shaped.congr (congrArg List.length h1) h2 (by
+      show (Logbook.setLogHeader f lb).buffindex ≤ (Logbook.setLogHeader f lb).rows.length
+      rw [h3, h1]; exact ((deepAligned_iff lb).1 hd).1), by simpa [step, specStep, h1] using h.rows⟩
+
+theorem history_repDeep {sh : Shape} (ops : List Op) :
+    ∀ {lb : LB} {es : List Entry}, RepDeep sh lb es → ValidDeep sh es ops →
+      RepDeep sh (runFrom lb ops) (specRunFrom es ops) := by
+  induction ops with
+  | nil => intro lb es h _; exact h
+  | cons o os ih =>
+    intro lb es h hv
+    exact ih (step_repDeep h o hv.1) hv.2
+
+/-! ### `header_streamed` is never reset -/
+
+theorem pop_headerStreamed (i : Int) (lb : LB) : (pop i lb).2.headerStreamed = lb.headerStreamed := by
+  cases lb with
+  | mk rows chs b h lh hs =>
+    simp only [pop]
+    split
+    · rfl
+    · split <;> rfl
+
+theorem delIndex_headerStreamed (i : Int) (lb : LB) :
+    (delIndex i lb).1.headerStreamed = lb.headerStreamed := by
+  rw [delIndex_eq_pop]; exact pop_headerStreamed i lb
+
+theorem delEach_headerStreamed (ds : List Nat) : ∀ (lb : LB),
+    (delEach ds lb).1.headerStreamed = lb.headerStreamed := by
+  induction ds with
+  | nil => intro lb; rfl
+  | cons i is ih =>
+    intro lb
+    simp only [delEach]
+    have h1 := delIndex_headerStreamed (i : Int) lb
+    rcases hx : delIndex (i : Int) lb with ⟨lb', fl⟩
+    rw [hx] at h1
+    cases fl with
+    | true => exact h1
+    | false => simp only; rw [ih lb']; exact h1
+
+theorem record_headerStreamed (e : Entry) (lb : LB) :
+    (record e lb).headerStreamed = lb.headerStreamed := by
+  cases e; cases lb; simp [record, recordAux]
+
+/-- no operation resets `header_streamed` -/
+theorem step_headerStreamed (lb : LB) (o : Op) (h : lb.headerStreamed = true) :
+    (step lb o).1.headerStreamed = true := by
+  cases o with
+  | record e => simp only [step]; rw [record_headerStreamed]; exact h
+  | select path names => exact h
+  | stream => simp only [step]; rw [(stream_header lb).2, h]; rfl
+  | str => exact h
+  | pop i => simp only [step]; rw [pop_headerStreamed]; exact h
+  | delIndex i => simp only [step]; rw [delIndex_headerStreamed]; exact h
+  | delSlice idx => simp only [step, delSlice]; rw [delEach_headerStreamed]; exact h
+  | pickle => simp only [step, pickle_eq]; exact h
+  | setHeader hd => cases lb; simpa [step, setHeader] using h
+  | setLogHeader f => cases lb; simpa [step, setLogHeader] using h
+
+theorem run_snoc (ops : List Op) (o : Op) : run (ops ++ [o]) = (step (run ops) o).1 := by
+  simp [run, runFrom, List.foldl_append]
+
+/-- once a stream has carried the header, `header_streamed` is set -/
+theorem headerStreamed_of_count (ops : List Op) : 1 ≤ headerCount ops →
+    (run ops).headerStreamed = true := by
+  induction ops using List.reverseRecOn with
+  | nil => intro h; simp [headerCount, streams, streamsFrom] at h
+  | append_singleton pre o ih =>
+    intro h
+    rw [run_snoc]
+    rw [headerCount_snoc] at h
+    by_cases hc : (isStream o && (stream (run pre)).1.header) = true
+    · simp only [Bool.and_eq_true] at hc
+      obtain rfl := (isStream_iff o).1 hc.1
+      have hh := hc.2
+      rw [(stream_header (run pre)).1] at hh
+      simp only [step]
+      rw [(stream_header (run pre)).2]
+      simp only [Bool.and_eq_true] at hh
+      simp [hh.2]
+    · simp only [hc, Bool.false_eq_true, if_false, Nat.add_zero] at h
+      exact step_headerStreamed _ o (ih h)
 
 section Statistics
 open Stats
